@@ -1,5 +1,6 @@
 import JokerVerif.Model.Units
 import JokerVerif.Props.C01
+import JokerVerif.Model.Reject
 /-!
 # C07 — physical results are invariant under the choice of units
 -/
@@ -106,3 +107,55 @@ end Kernel
 -- non-vacuity
 example : Units.conv (Units.reexpress (1000 : ℚ) ⟨2500, 1⟩) 1 = Units.conv ⟨2500, 1⟩ 1 := by decide +kernel
 example : Units.conv (⟨5/2, 1000⟩ : Units.Quantity ℚ) 1 = 2500 := by decide +kernel
+
+/-! ### The rejection step only sees likelihood differences
+
+Together with `Kernel.ll_data_unit_jacobian` (every marginal ln-likelihood shifts by the same constant `−n ln c`
+when the data unit changes) this closes the argument for "the accepted set is unchanged for equal seeds":
+the accepted positions computed by the sampler's rule are invariant under a common shift of all
+ln-likelihoods. Stated for the executable rejection model of C02 over any ordered field. -/
+namespace Reject
+variable {α : Type} [Field α] [LinearOrder α] [IsStrictOrderedRing α]
+
+theorem foldl_max_shift (c : α) : ∀ (ls : List α) (l : α),
+    (ls.map (· + c)).foldl max (l + c) = ls.foldl max l + c := by
+  intro ls
+  induction ls with
+  | nil => intro l; rfl
+  | cons x xs ih =>
+    intro l
+    simp only [List.map_cons, List.foldl_cons]
+    rw [max_add_add_right, ih (max l x)]
+
+theorem maxOf_shift (c : α) (lls : List α) : maxOf (lls.map (· + c)) = (maxOf lls).map (· + c) := by
+  cases lls with
+  | nil => rfl
+  | cons l ls => simp only [List.map_cons, maxOf, Option.map_some, foldl_max_shift]
+
+theorem maskFrom_shift (expf : α → α) (c m : α) : ∀ (pos : Nat) (lls uu : List α),
+    maskFrom expf (m + c) pos (lls.map (· + c)) uu = maskFrom expf m pos lls uu := by
+  intro pos lls
+  induction lls generalizing pos with
+  | nil => intro uu; simp [maskFrom]
+  | cons l ls ih =>
+    intro uu
+    cases uu with
+    | nil => simp [maskFrom]
+    | cons u us =>
+      simp only [List.map_cons, maskFrom, add_sub_add_right_eq_sub]
+      rw [ih (pos + 1) us]
+
+/-- **accepted positions are invariant under a common shift of the ln-likelihoods** (e.g. the unit Jacobian
+`−n ln c`), for the same uniform draws -/
+theorem goodPos_shift_invariant (expf : α → α) (c : α) (lls uu : List α) :
+    goodPos expf (lls.map (· + c)) uu = goodPos expf lls uu := by
+  unfold goodPos
+  rw [maxOf_shift]
+  cases h : maxOf lls with
+  | none => rfl
+  | some m => simp only [Option.map_some]; exact maskFrom_shift expf c m 0 lls uu
+
+example : goodPos (fun x : ℚ => 1 + x / 4) [-3, -1, -2] [1/2, 99/100, 1/5]
+    = goodPos (fun x : ℚ => 1 + x / 4) ([-3, -1, -2].map (· + 7)) [1/2, 99/100, 1/5] := by decide +kernel
+
+end Reject
